@@ -4,6 +4,7 @@ Driver for C15 (panel container conversions).  Import-free (Model + Parse only).
 Line protocol (tokens after the property id):
 
   path <rep> <hop>*         -> results of every hop, separated by " > " (stops at the first error)
+  pathd <rep> <dhop> <hop>* -> same, followed by " || " and the result of the single hop <dhop> on <rep>
   pred <rep N>              -> "isn=<T|F> acn=<T,F,..>"
   chk <rep|O> <uni> <minInst> <minCols> <toNumpy> <toPandas>   -> rep or error
 
@@ -178,6 +179,10 @@ def handle (toks : List String) : String :=
     match parseRep? rep, hops.mapM parseHop? with
     | some r, some hs => showList " > " (runPath hs r)
     | _, _ => "bad-op"
+  | "pathd" :: rep :: dhop :: hops =>
+    match parseRep? rep, parseHop? dhop, hops.mapM parseHop? with
+    | some r, some d, some hs => showList " > " (runPath hs r) ++ " || " ++ showList " > " (runPath [d] r)
+    | _, _, _ => "bad-op"
   | ["pred", rep] =>
     match parseRep? rep with
     | some (.nested N) => s!"isn={showBool (isNestedDataframe N)} acn={showBoolList (areColumnsNested N)}"
